@@ -137,7 +137,9 @@ _add(PropertySpec(
 
 _add(PropertySpec(
     'C12', 'other',
-    functions=['ampycloud.utils.utils.adjust_nested_dict', 'ampycloud.data.AbstractChunk._setup_prms', 'ampycloud.core.reset_prms'],
+    functions=['ampycloud.utils.utils.adjust_nested_dict', 'ampycloud.data.AbstractChunk._setup_prms', 'ampycloud.core.reset_prms',
+               'ampycloud.core.set_prms'],
+    lemmas=['prop.C12.merge_is_a_function'],
     extras=[_fs.c12], bounded=_bounded('c12'),
     explanation=('PROVED (P, tree dialect: parameter values as mathematical finite maps over string keys, dict objects as holders with '
                  'write-through to their parent; universals over keys instantiated at the keys on the path): adjust_nested_dict (real '
@@ -149,15 +151,19 @@ _add(PropertySpec(
                  '(or a copy when None); the global is neither rebound nor changed.  reset_prms: None rebinds the global to a fresh '
                  'defaults object; a name / a list of names (any length, repetitions) sets exactly the named top-level keys to the '
                  'packaged values and leaves the others untouched, whatever the global held before (nested in-place edits included); '
-                 'AmpycloudError exactly when a name is not a packaged parameter.  PROVED (F): dynamic.AMPYCLOUD_PRMS is read directly '
+                 'AmpycloudError exactly when a name is not a packaged parameter.  set_prms (real AST; file system and YAML parser as ghost '
+                 'values): refuses exactly a non-path, a missing path or a non-file, warns (AmpycloudWarning, once) iff the suffix is not '
+                 '.yml, reads the file once and leaves the global -- the same object -- adjusted by the file content through the very same '
+                 'merge.  LEMMA prop.C12.merge_is_a_function (structural induction): IsAdj(f1, r, n) and IsAdj(f2, r, n) give f1 and f2 the '
+                 'same content, so per-call dict, edited global and YAML file with the same effective values yield the same snapshot.  PROVED (F): dynamic.AMPYCLOUD_PRMS is read directly '
                  'only by _setup_prms, set_prms, reset_prms and the plotting-style code; no processing step reaches it even through '
                  'callees; the constructor takes its snapshot through _setup_prms; set_prms merges into the global through the same '
-                 'adjust_nested_dict.  BOUNDED (B): identical *results of a run* through the three routes, the YAML route of set_prms '
-                 '(path handling, ruamel) and the library assumptions above are checked natively on a scene grammar x nested assignments.'),
+                 'adjust_nested_dict.  BOUNDED (B): identical *results of a run* through the three routes (follows from equal snapshots by A-DET) '
+                 'and the library assumptions above (ruamel, pathlib, deepcopy) are checked natively on a scene grammar x nested assignments.'),
     assumptions=[A_FRAME, 'ruamel.yaml load returns the nested dict the file denotes, as a new object tree on every call (contract of get_default_prms)',
                  'A-TREE: parameter dictionaries are finite trees (no dict object reachable through two paths, no cycles); copy.deepcopy returns an independent object of equal value',
                  'valid assignment (the property\'s quantifier): Compat(ref, new) -- named known keys agree on dict / plain value, recursively'],
-    not_decided=['set_prms body (path checks, YAML load) beyond its frame contract (bounded only)', 'equality of whole runs through the three routes (bounded; follows from equal snapshots by A-DET)'],
+    not_decided=['equality of whole runs through the three routes (bounded; follows from equal snapshots by A-DET)', 'what ruamel.yaml returns for a given file text (assumed: the nested dict it denotes)'],
 ))
 
 _add(PropertySpec(
